@@ -6,6 +6,8 @@ package trzsz
 // message index, inject one event: the user stops the transfer, a side falls silent, a message is damaged, the user
 // pauses. Used by the C02, C10, C11 and C18 session runs.
 
+import "sync/atomic"
+
 const (
 	zzEvNone = iota
 	zzEvStopClient
@@ -372,6 +374,7 @@ func zzH_C10_session() {
 		}
 		verifReach("stop-delete")
 	}
+	zzSessTransparent(s)
 	verifReach("stopped")
 }
 
@@ -394,6 +397,7 @@ func zzH_C11_session() {
 		verifAssert(zzSessFileIntact(res), "success reported although the file is incomplete")
 	}
 	verifAssertNoLiveThreadsExcept("worker left running after both ends returned", "wrapOutput")
+	zzSessTransparent(s)
 	verifReach("silenced")
 }
 
@@ -476,8 +480,33 @@ func zzH_C01_sessionPlain() {
 		old := verifFSContent(res.root + "/a")
 		verifAssert(string(old) == "old", "pre-existing file modified without -y")
 	}
-	_ = s
+	if !upload {
+		// the names shown to the user: a download ends with the client's "#EXIT:" line carrying the list it saved
+		msg := zzSessExitMessage(s)
+		want := "\r\n- " + res.name
+		verifAssert(len(msg) >= len(want) && msg[len(msg)-len(want):] == want, "the name shown to the user is not the name that was written")
+		verifReach("names-shown")
+	}
 	verifReach("session-ok")
+}
+
+// the decoded text of the last "#EXIT:" line the client wrote to the connection ("" if none)
+func zzSessExitMessage(s *zzSess) string {
+	w := s.wire
+	for i := len(w) - 7; i >= 0; i-- {
+		if string(w[i:i+6]) == "#EXIT:" {
+			j := i + 6
+			for j < len(w) && w[j] != '\n' && w[j] != '\r' {
+				j++
+			}
+			b, err := decodeString(string(w[i+6 : j]))
+			if err != nil {
+				return ""
+			}
+			return string(b)
+		}
+	}
+	return ""
 }
 
 
@@ -498,4 +527,22 @@ func zzH_C04_session() {
 		}
 	}
 	verifReach("binary-upload")
+}
+
+
+// C05 after a transfer that finished, failed or was cancelled: the wrapper is transparent again in both directions
+func zzSessTransparent(s *zzSess) {
+	if s.f.transfer.Load() != nil {
+		return
+	}
+	before := len(s.term.got)
+	s.toClient <- []byte("zq")
+	verifQuiesce()
+	got := s.term.got[before:]
+	verifAssert(len(got) == 2 && got[0] == 'z' && got[1] == 'q', "remote output is not passed through unchanged after the transfer ended")
+	var noDrag atomic.Bool
+	n := len(s.wire)
+	s.f.sendInput([]byte("k"), &noDrag)
+	verifAssert(len(s.wire) == n+1 && s.wire[n] == 'k', "typed input does not reach the remote side after the transfer ended")
+	verifReach("transparent-again")
 }
